@@ -13,7 +13,7 @@
     qmail-send.c rewrite()        `phLoop`, `cand`, `vscan`, `rewriteWith`
     qmail-send.c senderadd()      `senderadd`
     qmail-send.c todo_do() record loop          `todoStep`, `todoDo`
-    qmail-send.c sighup / main loop / reread    `Daemon`, `Ev`, `accept`
+    qmail-send.c sighup / main loop / reread    `Daemon`, `Ev` (edit, hup, top, msg), `accept`, `acceptAll`
 
   Core Lean only (the driver `drv_c10` links this file).
 -/
@@ -347,7 +347,25 @@ def todoDo (L : Lookups) (env : Bytes) (todo : Bytes) : Option TodoOut :=
 /-- the recipient list of a `todo` file routed one by one -/
 def routeAll (c : Cfg) (rs : List Bytes) : List Routed := rs.map (rewrite c)
 
-/-! ### the daemon: control files, HUP, preprocessing -/
+/-! ### the daemon: control files, HUP, preprocessing
+
+qmail-send.c: `void sighup() { flagreadasap = 1; }` and the main loop
+
+    while (!flagexitasap || !del_canexit()) {
+      recent = now();
+      if (flagrunasap) { flagrunasap = 0; pqrun(); }
+      if (flagreadasap) { flagreadasap = 0; reread(); }        -- event `top`
+      …selprep…
+      if (select(…) == -1) { if (errno == error_intr) ; else log1(…); }   -- EINTR: the body is skipped
+      else { recent = now(); comm_do(); del_do(); todo_do(&rfds); pass_do(); cleanup_do(); }   -- event `msg`
+    }
+
+The reread happens when the loop passes its top, with the files as they are on disk *then*; `todo_do`
+(at most one message per call) runs in the body under whatever configuration is in force *then* — it
+does not look at the flag. A SIGHUP that arrives while the daemon is blocked in `select()` makes
+`select` return `EINTR`, the body is skipped and the loop top follows at once: the trace `[hup, top]`.
+A SIGHUP that arrives between the flag test and `select()` is only served after the next body (the
+select race inherent in this loop): the trace `[top, hup, msg, top]`. Both are traces of this acceptor. -/
 
 structure Daemon where
   me : Option Bytes        -- `me` as read by control_init at start-up
@@ -357,8 +375,9 @@ structure Daemon where
 
 inductive Ev
   | edit (f : Files)                    -- the administrator rewrites the control files
-  | hup                                 -- SIGHUP arrives: sighup() sets flagreadasap
-  | msg (todo : Bytes) (out : Option TodoOut)   -- one main-loop round preprocessing a message
+  | hup                                 -- SIGHUP is delivered (anywhere in the loop): sighup() sets flagreadasap
+  | top                                 -- the loop passes its top: `if (flagreadasap) { flagreadasap = 0; reread(); }`
+  | msg (todo : Bytes) (out : Option TodoOut)   -- `todo_do` in the loop body preprocesses one message
 
 def start (f : Files) : Option Daemon :=
   match getcontrols f with
@@ -369,14 +388,16 @@ def start (f : Files) : Option Daemon :=
 def Daemon.top (d : Daemon) : Daemon :=
   if d.flagread then { d with cfg := reget d.me d.cfg d.files, flagread := false } else d
 
-/-- acceptor: an observed `msg` event is accepted iff its outputs are what `todo_do` writes under
-the configuration in force after the loop-top reread -/
+/-- acceptor (monitor) for an observed trace. `edit`, `hup`, `top` are always possible and update the
+state as the C code does; an observed `msg` event is accepted iff its outputs are what `todo_do`
+writes under the configuration in force at that moment (no reread here: the flag is only looked at
+by `top`). The state is not changed by `msg`. -/
 def accept (d : Daemon) : Ev → Option Daemon
   | .edit f => some { d with files := f }
   | .hup => some { d with flagread := true }
+  | .top => some d.top
   | .msg todo out =>
-    let d' := d.top
-    if todoDo d'.cfg.htLookups d'.cfg.env todo = out then some d' else none
+    if todoDo d.cfg.htLookups d.cfg.env todo = out then some d else none
 
 def acceptAll : Daemon → List Ev → Option Daemon
   | d, [] => some d
